@@ -89,6 +89,11 @@ fn alphabet0(b: &Built) -> Vec<Op> {
         a.push(Op::InitTaUnaligned { spacings: -3, dynamic: true });
         a.push(Op::IncVia { pos: 0, liq: 5_000, lower_start: -192, upper_start: -192, v2: true });
         a.push(Op::IncVia { pos: 0, liq: 6_000, lower_start: -192, upper_start: -192, v2: false });
+        // ... and one whose start (704 = lcm(88, 64)) is a multiple of the spacing AND of 88, but not of 88 spacings; it would hold
+        // the upper bound of position 1
+        a.push(Op::InitTaUnaligned { spacings: 11, dynamic: false });
+        a.push(Op::InitTaUnaligned { spacings: 11, dynamic: true });
+        a.push(Op::IncVia { pos: 1, liq: 5_500, lower_start: 0, upper_start: 704, v2: true });
     }
     if b.w.pool.tick_spacing == 64 && b.name.contains("std") {
         // the same at the left edge of the tick range, where the only valid array start below the lowest tick is the aligned one
